@@ -27,11 +27,31 @@ CHECKS = {
          'Each column is checked three ways: converted/unconverted equals the kind factor, stored value equals the raw file column (ratio x reference), and the principal dispersions square-sum to sigmav3d^2.',
          'kind table (length / velocity / ratio / unchanged) is the specification; float32 tolerance 4 ulp',
          'DESIGN.md 4/C05'),
+ 'C04': ('exploration',
+         'complete sweep of the finite word domains (quick: every 20-bit position and 12-bit velocity field x backgrounds per column; thorough: all 2^32 RVint words per column; every value of every PID field x 16 backgrounds) through the real decoders, against an independent vectorised reference',
+         'Whole-domain enumeration of RVint words and per-field enumeration of aux words x backgrounds x output selections x dtypes x Box/ppd; coverage counters are verified against the closed-form domain sizes in finalize().',
+         'reference decoders written from the documented bit layout (vf/c04_ref.py); PID words per field x 16 backgrounds rather than 2^64',
+         'DESIGN.md 4/C04'),
+ 'C07': ('model_checking',
+         'exhaustive configuration enumeration on the real tsc_parallel front end + dynamic partial-order reduction (Bernstein independence of every concurrently processed stripe pair on the access log of the real _tsc_parallel/_tsc_scatter twins) + stateless CHESS-style schedule exploration with preemption bounding',
+         'Every (grid size, nthread, npartition incl. default, axis) is decided by the real front end; for every accepted multi-stripe configuration the twins run on a boundary probe set and all same-phase stripe pairs are shown to touch disjoint cells, which makes all interleavings one Mazurkiewicz trace; small configurations and any conflicting one are additionally explored schedule by schedule (bounds 0,1,2) against the serial deposit. The explorer is self-checked on a seeded unsafe partition of the real kernel at every run.',
+         'element-atomic sequentially consistent grid loads/stores; one virtual thread per prange iteration; interpreted twin = kernel source (conformance: compiled real-thread runs vs one thread)',
+         'DESIGN.md 3.2-3.4, 4/C07'),
  'C14': ('model_checking',
          'explicit-state BFS over the real decompress loop (state read from the parser frame locals; transitions = next chunk length 0..remaining; every transition a real execution) + unmerged enumeration of all 2^(L-1) chunk compositions of short streams',
          'For each stream produced by the real compress the reachable parser states (offset, _size, _pos, _partial_len, buffered bytes, bytesout, output) are enumerated completely and every transition executed; the invariant (output = completed frames, final length/bytes = payload) is evaluated in every state. Merging is validated by brute-force enumeration of every composition of mini-frame streams.',
          'blosc codec replaced by a strict self-delimiting double; the frame locals named in the check are the whole loop state',
          'DESIGN.md 3.5, 4/C14'),
+ 'C15': ('model_checking',
+         'complete sweep of all 2^24 bit patterns of each 3-byte group (particle and header records) + explicit-state enumeration of all header/particle sequences to depth 5/7 against an independent pack9 reference decoder',
+         'Nibble layer: every pattern of every 12-bit field pair; state machine: every sequence over {h1,h2,p1,p2} up to the depth bound incl. empty and particle-before-header, each replayed from scratch in 12 output configurations with a prefix-transition check; encode->decode round trip within one quantum.',
+         'independent reference in vf/c15_ref.py (self-checked bijection on all 2^24 patterns); cpd<=0 headers excluded',
+         'DESIGN.md 4/C15'),
+ 'C17': ('model_checking',
+         'exhaustive enumeration of small particle sets on a stripe-boundary alphabet x configurations, compiled with real threads and as interpreted twin with dynamic partial-order reduction (pairwise Bernstein independence of per-thread bodies, exactly-once output writes)',
+         'All sequences up to length 2-3 over the boundary alphabet and structured families up to N=9, for every npartition/coord/dtype/weights/sort and thread counts incl. nthread > N: permutation with weights attached, stripe membership by exact rational floor, monotone starts, sortedness; independence of the bodies of all three parallel regions proves schedule-independence.',
+         'Bernstein independence => single Mazurkiewicz trace; 4-ulp tolerance at stripe boundaries',
+         'DESIGN.md 3.3, 4/C17'),
  'C18': ('exploration',
          'complete sweep of the 65340-code input domain in three batchings and through the catalog loader; geometric oracle',
          'Whole-domain enumeration: orthonormality to 1e-12, handedness, pairwise distinctness, hemisphere covering within the 4 degree cell.',
